@@ -49,7 +49,7 @@ FUNCTIONS = [
     "autoarray.dataset.imaging.dataset.Imaging.w_tilde",
     "autoarray.dataset.imaging.dataset.Imaging.convolver",
 ]
-EXPLORER_OPTS = {"timeout_ms": 60000, "max_paths": 20000, "max_candidates": 3}   # generous solver timeout: the host is shared and heavily loaded
+EXPLORER_OPTS = {"timeout_ms": 10000, "max_paths": 20000, "max_candidates": 3}   # generous solver timeout: the host is shared and heavily loaded
 BUDGET_S = {"quick": 480, "thorough": 2200}
 
 
@@ -59,6 +59,9 @@ def POST_INSTALL():
     merge.install_dispatchers()
     _install_linalg_stub()
     _install_mirror_merge()
+    if os.environ.get("C04_DEBUG"):
+        import faulthandler, signal
+        faulthandler.register(signal.SIGUSR1, all_threads=True)
 
 
 EPS_DIAG = 2.0 ** -10          # configured "no regularization" diagonal term (dyadic so that float and exact arithmetic coincide)
@@ -224,7 +227,13 @@ def stop_if_enough(ctx):
 
 
 def known_ids():
-    return [k for k in os.environ.get("VERIF_KNOWN", "").split(",") if k]
+    """ids of recorded findings with status 'known' (set by the driver); C04_ASSUME_FIXED=id1,id2|all drops ids (used to try a proposed fix
+    against the unconditional obligations before the known_findings entry is flipped to 'fixed')"""
+    ids = [k for k in os.environ.get("VERIF_KNOWN", "").split(",") if k]
+    drop = os.environ.get("C04_ASSUME_FIXED", "")
+    if drop == "all":
+        return []
+    return [k for k in ids if k not in drop.split(",")]
 
 
 def _obj(a, shape=None):
@@ -276,14 +285,19 @@ def body_wtilde(inp, ky, kx):
 
 
 def _regions(ky, kx, neg_pairs_term):
-    """known-finding regions per finding id (only ids with status 'known' are honoured)"""
-    out = {}
+    """known-finding regions per finding id (only ids with status 'known' are honoured).  While 'nonsquare-shift' is known, every
+    non-square kernel lies in its region and failures there are attributed to it alone; 'signed-psf-overlap' then covers square kernels
+    (and non-square ones as soon as the shift defect is marked fixed)."""
     ids = known_ids()
     if "nonsquare-shift" in ids and ky != kx:
-        out["nonsquare-shift"] = z3.BoolVal(True)
+        return {"nonsquare-shift": z3.BoolVal(True)}
     if "signed-psf-overlap" in ids and neg_pairs_term is not None:
-        out["signed-psf-overlap"] = neg_pairs_term
-    return out
+        return {"signed-psf-overlap": neg_pairs_term}
+    return {}
+
+
+def nonsquare_known(ky, kx):
+    return ky != kx and "nonsquare-shift" in known_ids()
 
 
 def _neg_overlap_term(mask, K, s, ctx=None):
@@ -312,6 +326,83 @@ def _neg_overlap_term(mask, K, s, ctx=None):
     return z3.Or(*ts) if ts else None
 
 
+# symbolic noise values that know their reciprocal ------------------------------
+
+_MONO = {}
+
+
+def mono_class():
+    """Noise proxy sigma^k (k a non-zero integer) over a pair of solver variables (s, u) tied by s*u == 1, s > 0: powers, products and
+    reciprocals of the same noise value stay monomials and `x / sigma^k` becomes the product x * u^k, so every quantity the code computes
+    from the noise map is a *polynomial* in the u's (z3's nlsat is unreliable on the division terms otherwise; no semantics is changed:
+    the term of sigma^-k is u^k and u = 1/s holds in every model)."""
+    if "cls" in _MONO:
+        return _MONO["cls"]
+
+    class Mono(V.SymReal):
+        __slots__ = ("s", "u", "k")
+
+        def __init__(self, s, u, k):
+            self.s, self.u, self.k = s, u, k
+            base, n = (s, k) if k > 0 else (u, -k)
+            t = base
+            for _ in range(n - 1):
+                t = t * base
+            V.SymReal.__init__(self, t)
+
+        def _same(self, o):
+            return isinstance(o, Mono) and o.s.eq(self.s)
+
+        def _mk(self, k):
+            return Mono(self.s, self.u, k) if k != 0 else np.float64(1.0)
+
+        def __mul__(self, o):
+            if self._same(o):
+                return self._mk(self.k + o.k)
+            return V.SymReal.__mul__(self, o)
+
+        __rmul__ = __mul__
+
+        def __truediv__(self, o):
+            if self._same(o):
+                return self._mk(self.k - o.k)
+            if isinstance(o, Mono):
+                return V.SymReal.__mul__(self, o._mk(-o.k))
+            return V.SymReal.__truediv__(self, o)
+
+        def __rtruediv__(self, o):
+            if isinstance(o, np.ndarray):
+                return NotImplemented
+            inv = self._mk(-self.k)
+            if V._is_num(o):
+                if o == 0:
+                    return np.float64(0.0)
+                if o == 1:
+                    return inv
+            if V.is_sym(o) or V._is_num(o):
+                return inv * o
+            return NotImplemented
+
+        def __pow__(self, o):
+            if V._is_num(o) and float(o) == int(o) and int(o) != 0:
+                return self._mk(self.k * int(o))
+            return V.SymReal.__pow__(self, o)
+
+    _MONO["cls"] = Mono
+    return Mono
+
+
+def symbolic_noise(ctx, name, n):
+    """n positive symbolic noise values (Mono proxies); registers s > 0 and s*u == 1"""
+    Mono = mono_class()
+    out = np.empty(n, dtype=object)
+    for i in range(n):
+        s_, u_ = z3.Real("%s__%d" % (name, i)), z3.Real("%s_inv__%d" % (name, i))
+        ctx.assume(z3.And(s_ > 0, u_ > 0, s_ * u_ == 1))
+        out[i] = Mono(s_, u_, 1)
+    return out
+
+
 # concrete dyadic material ---------------------------------------------------
 
 def dyadic_kernel(ky, kx, signed=True):
@@ -337,6 +428,10 @@ def dyadic_data(n):
 
 def _inputs_for(ctx, mode, mask, ky, kx, signed=True, nsym=None, ksym=None):
     n = len(positions(mask))
+    if nonsquare_known(ky, kx):
+        # while the non-square w-tilde path is a recorded defect for every input, signed kernels add nothing there (and would blur the
+        # attribution between the two recorded findings): non-square cases use non-negative kernels until that finding is marked fixed
+        signed = False
     data, noise, kernel = dyadic_data(n), pow2_noise(n), dyadic_kernel(ky, kx, signed).reshape(-1)
     if mode == "data":
         data = V.real_array("d", (n,))
@@ -349,17 +444,14 @@ def _inputs_for(ctx, mode, mask, ky, kx, signed=True, nsym=None, ksym=None):
             for i in ksym:
                 kernel[i % (ky * kx)] = sym[i % (ky * kx)]
     elif mode == "noise":
-        sym = V.real_array("s", (n,))
+        sym = symbolic_noise(ctx, "s", n)
         noise = np.array(noise, dtype=object)
         for i in range(n if nsym is None else min(n, nsym)):
             k = (2 * i + 1) % n if nsym is not None and 2 * nsym <= n else i
             noise[k] = sym[k]
-            ctx.assume(sym[k].t > 0)
     elif mode == "data+noise":
         data = V.real_array("d", (n,))
-        noise = V.real_array("s", (n,))
-        for e in noise:
-            ctx.assume(e.t > 0)
+        noise = symbolic_noise(ctx, "s", n)
     else:
         raise ValueError(mode)
     return {"mask": mask, "data": data, "noise": noise, "kernel": kernel}
@@ -385,6 +477,8 @@ def case_wtilde(ctx, pattern, ky, kx, mode, extra=0, signed=True, nsym=None, ksy
     inputs = _inputs_for(ctx, mode, mask, ky, kx, signed, nsym, ksym)
     n = len(positions(mask))
     neg = _neg_overlap_term(mask, _obj(inputs["kernel"], (ky, kx)), _obj(inputs["noise"]).reshape(-1)[:n], ctx)
+    if nonsquare_known(ky, kx) and neg is not None:
+        ctx.assume(z3.Not(neg))
     reg_f = _regions(ky, kx, neg)
     reg_d = _regions(ky, kx, None)
     known = {}
@@ -431,10 +525,9 @@ def case_mapping_kernels(ctx, n, m, noreg, mode, nsym=1):
     if mode == "noise":
         # symbolic positive noise; the blurred matrix keeps one symbolic column, the rest concrete dyadic (keeps the terms quadratic)
         s = np.array(s, dtype=object)
-        ss = V.real_array("s", (n,))
+        ss = symbolic_noise(ctx, "s", n)
         for i in range(nsym):
             s[(2 * i + 1) % n] = ss[(2 * i + 1) % n]
-            ctx.assume(ss[(2 * i + 1) % n].t > 0)
         Bc = np.array([[(0.5, -1.0, 0.25, 2.0, -0.75, 1.5)[(3 * i + 2 * j + i * j) % 6] for j in range(m)] for i in range(n)], dtype=object)
         Bc[:, 0] = B[:, 0]
         B = Bc
@@ -866,6 +959,8 @@ def case_inversion(ctx, pattern, ky, kx, specs, mode, extra=0, signed=True, solv
     n = len(positions(mask))
     inputs["recon"] = V.real_array("r", (_total_params(mask, specs),))
     neg = _neg_overlap_term(mask, _obj(inputs["kernel"], (ky, kx)), _obj(inputs["noise"]).reshape(-1)[:n], ctx)
+    if nonsquare_known(ky, kx) and neg is not None:
+        ctx.assume(z3.Not(neg))
     reg_f = _regions(ky, kx, neg)
     reg_d = _regions(ky, kx, None)
 
@@ -896,7 +991,7 @@ def case_inversion(ctx, pattern, ky, kx, specs, mode, extra=0, signed=True, solv
             for e in np.asarray(arr, dtype=object).reshape(-1):
                 if V.is_sym(e):
                     ctx.assume(z3.And(e.t >= -1000, e.t <= 1000))
-    hx.run_body(ctx, body_inversion, inputs, {"ky": ky, "kx": kx, "specs": specs, "solve": solve, "split": mode in ("kernel", "noise") or tol is not None},
+    hx.run_body(ctx, body_inversion, inputs, {"ky": ky, "kx": kx, "specs": specs, "solve": solve, "split": mode in ("kernel", "noise", "data+noise") or tol is not None},
                 validate_every=4, known=known, tol=tol)
 
 
@@ -914,7 +1009,7 @@ def cases(tier):
     # ---- level 0: mapping-formalism kernels, mirroring
     out.append(("case_mapping_kernels", {"n": 4, "m": 3, "noreg": [0, 2], "mode": "all"}))
     out.append(("case_mapping_kernels", {"n": 6, "m": 4, "noreg": [1], "mode": "all"}))
-    out.append(("case_mapping_kernels", {"n": 5, "m": 3, "noreg": [0, 1, 2], "mode": "noise", "nsym": 2}))
+    out.append(("case_mapping_kernels", {"n": 5, "m": 3, "noreg": [0, 1, 2], "mode": "noise", "nsym": 5}))
     out.append(("case_mapping_kernels", {"n": 4, "m": 4, "noreg": [], "mode": "noise", "nsym": 4}))
     for m in ((4, 5) if q else (4, 5, 7)):
         for kind in ("upper", "blocks", "any"):
@@ -927,23 +1022,25 @@ def cases(tier):
         out.append((W, {"pattern": pat, "ky": 3, "kx": 3, "mode": "data"}))
     out.append((W, {"pattern": "cross5", "ky": 5, "kx": 5, "mode": "data"}))
     out.append((W, {"pattern": "diag3", "ky": 3, "kx": 3, "mode": "data", "signed": "zeros"}))
-    out.append((W, {"pattern": "zig4", "ky": 3, "kx": 3, "mode": "noise", "signed": "zeros", "nsym": 2}))
+    out.append((W, {"pattern": "zig4", "ky": 3, "kx": 3, "mode": "noise", "signed": "zeros"}))
     for (ky, kx) in nonsq:
         out.append((W, {"pattern": "all:2x2", "ky": ky, "kx": kx, "mode": "data"}))
         out.append((W, {"pattern": "cross5", "ky": ky, "kx": kx, "mode": "data", "extra": 1}))
         out.append((W, {"pattern": "L3", "ky": ky, "kx": kx, "mode": "kernel", "ksym": [0, ky * kx // 2, ky * kx - 1]}))
-        out.append((W, {"pattern": "block4", "ky": ky, "kx": kx, "mode": "noise", "nsym": 1}))
-    for pat in ("pair", "L3", "diag3"):
-        out.append((W, {"pattern": pat, "ky": 3, "kx": 3, "mode": "kernel"}))                 # the whole kernel symbolic
+        out.append((W, {"pattern": "block4", "ky": ky, "kx": kx, "mode": "noise"}))
+    out.append((W, {"pattern": "pair", "ky": 3, "kx": 3, "mode": "kernel"}))                 # the whole kernel symbolic
+    for pat, ks in (("L3", [0, 2, 4, 7]), ("L3", [1, 3, 5, 8]), ("diag3", [0, 4, 8, 2]), ("diag3", [0, 6, 8, 5])):
+        out.append((W, {"pattern": pat, "ky": 3, "kx": 3, "mode": "kernel", "ksym": ks}))
     for i, pat in enumerate(("block4", "gap3", "zig4", "cross5") + (() if q else ("ring8", "T6"))):
         for ks in (KSYM_33[i % 4:i % 4 + 1] if q else KSYM_33):
             out.append((W, {"pattern": pat, "ky": 3, "kx": 3, "mode": "kernel", "ksym": ks}))
     out.append((W, {"pattern": "block4", "ky": 3, "kx": 3, "mode": "kernel", "ksym": [0, 8], "extra": 1}))
     out.append((W, {"pattern": "L3", "ky": 5, "kx": 5, "mode": "kernel", "ksym": [0, 12, 18]}))
     out.append((W, {"pattern": "L3", "ky": 3, "kx": 3, "mode": "noise"}))
-    out.append((W, {"pattern": "block4", "ky": 3, "kx": 3, "mode": "noise", "nsym": 2}))
-    out.append((W, {"pattern": "cross5", "ky": 3, "kx": 3, "mode": "noise", "nsym": 1 if q else 2}))
-    out.append((W, {"pattern": "block4", "ky": 3, "kx": 3, "mode": "noise", "signed": False}))
+    out.append((W, {"pattern": "block4", "ky": 3, "kx": 3, "mode": "data+noise"}))
+    out.append((W, {"pattern": "cross5", "ky": 3, "kx": 3, "mode": "noise"}))
+    out.append((W, {"pattern": "ring8", "ky": 3, "kx": 3, "mode": "noise", "signed": False}))
+    out.append((W, {"pattern": "all:2x2", "ky": 3, "kx": 3, "mode": "data+noise", "signed": False}))
     # ---- level 2: consumers of the tables
     for (pat, ky, kx, specs) in [("cross5", 3, 3, ["R33s1", "R34s2d"]), ("ring8", 3, 3, ["R33s2d", "R43s1"]), ("block9", 3, 3, ["R33s2e", "R44s2d"]),
                                  ("cross5", 3, 5, ["R33s2d", "R33s1"]), ("T6", 5, 3, ["R34s2e"])] + \
@@ -963,14 +1060,16 @@ def cases(tier):
     out.append((I, {"pattern": "cross5", "ky": 3, "kx": 3, "specs": ["D2"], "mode": "data", "signed": False}))
     for (ky, kx) in nonsq:
         out.append((I, {"pattern": "cross5", "ky": ky, "kx": kx, "specs": ["R33s2d", "F1"], "mode": "data", "signed": False, "solve": True}))
-    out.append((I, {"pattern": "L3", "ky": 3, "kx": 3, "specs": ["R33s1"], "mode": "kernel", "ksym": [0, 4, 7] if q else None}))
+    out.append((I, {"pattern": "L3", "ky": 3, "kx": 3, "specs": ["R33s1"], "mode": "kernel", "ksym": [0, 4, 7]}))
     out.append((I, {"pattern": "pair", "ky": 3, "kx": 3, "specs": ["F1", "R33s2d"], "mode": "kernel"}))
     out.append((I, {"pattern": "block4", "ky": 3, "kx": 3, "specs": ["R33s1", "F1"], "mode": "kernel", "ksym": [0, 4, 7]}))
     out.append((I, {"pattern": "L3", "ky": 3, "kx": 3, "specs": ["R33s2d", "R33s1n"], "mode": "kernel", "ksym": [1, 3, 8]}))
     out.append((I, {"pattern": "L3", "ky": 1, "kx": 3, "specs": ["R33s1", "F1"], "mode": "kernel"}))
     out.append((I, {"pattern": "L3", "ky": 3, "kx": 1, "specs": ["F1", "R33s1"], "mode": "kernel"}))
-    out.append((I, {"pattern": "L3", "ky": 3, "kx": 3, "specs": ["R33s1"], "mode": "noise", "nsym": 1}))
-    out.append((I, {"pattern": "block4", "ky": 3, "kx": 3, "specs": ["R33s1", "F1"], "mode": "noise", "nsym": 2, "signed": False}))
+    out.append((I, {"pattern": "L3", "ky": 3, "kx": 3, "specs": ["R33s1"], "mode": "noise"}))
+    out.append((I, {"pattern": "block4", "ky": 3, "kx": 3, "specs": ["R33s1", "F1"], "mode": "noise"}))
+    out.append((I, {"pattern": "cross5", "ky": 3, "kx": 3, "specs": ["F1", "R33s2d", "R33s1n"], "mode": "noise", "signed": False}))
+    out.append((I, {"pattern": "zig4", "ky": 3, "kx": 3, "specs": ["R33s2d", "R34s1"], "mode": "data+noise", "signed": False}))
     if not q:
         import itertools
         for perm in itertools.permutations(["R33s2d", "F2", "R34s2e"]):
@@ -979,7 +1078,8 @@ def cases(tier):
             out.append((I, {"pattern": "block9", "ky": 3, "kx": 3, "specs": list(perm), "mode": "data", "signed": False, "solve": True}))
         out.append((I, {"pattern": "all:2x3", "ky": 3, "kx": 3, "specs": ["R33s2d", "F1"], "mode": "data", "signed": False}, {"split": 3}))
         out.append((I, {"pattern": "cross5", "ky": 3, "kx": 3, "specs": ["R33s1", "R34s2d"], "mode": "kernel", "ksym": [0, 4, 7]}))
-        out.append((I, {"pattern": "block4", "ky": 3, "kx": 3, "specs": ["R33s1", "R34s2d"], "mode": "noise", "nsym": 1}))
+        out.append((I, {"pattern": "cross5", "ky": 3, "kx": 3, "specs": ["R33s1", "R34s2d"], "mode": "noise"}))
+        out.append((I, {"pattern": "ring8", "ky": 3, "kx": 3, "specs": ["R33s2d", "F2", "R34s2e"], "mode": "noise", "signed": False}))
         out.append((I, {"pattern": "T6", "ky": 3, "kx": 5, "specs": ["R33s2d", "F1", "R34s1"], "mode": "data", "signed": False, "solve": True}))
         out.append((I, {"pattern": "ring8", "ky": 3, "kx": 3, "specs": ["D2", "F1", "R33s2d"], "mode": "data", "signed": False}))
     return out
